@@ -195,15 +195,6 @@ func init() {
 			}
 			return iface{}
 		},
-		"(*gopkg.in/yaml.v3.Node).Decode": func(i *Interp, _ *frame, _ *ssa.Function, a []value) value {
-			if i.ex.choose(2, "stub") == 0 {
-				return iface{}
-			}
-			return mkError(TStr("yaml decode error"))
-		},
-		"(*gopkg.in/yaml.v3.Node).ShortTag": func(i *Interp, _ *frame, _ *ssa.Function, a []value) value {
-			return TStr("!!tag")
-		},
 	}
 	for k, v := range base {
 		intrinsics[k] = v
@@ -363,7 +354,7 @@ func (i *Interp) assert(c *Term, label string) {
 	}
 	r := i.solver.CheckFocus(i.pc, Not(c))
 	var model map[string]string
-	if r == "sat" {
+	if r == "sat" && i.params["__twin"] != 1 {
 		_, model = i.solver.CheckAll(append(append([]*Term{}, i.pc...), Not(c)))
 	}
 	switch r {
